@@ -33,6 +33,8 @@ def main():
         try:
             for sub in ("src", "test"):
                 shutil.copytree(f"/repo/{sub}", scratch / sub, ignore=shutil.ignore_patterns("__pycache__"))
+            (scratch / "webapp" / "src").mkdir(parents=True)
+            shutil.copy("/repo/webapp/src/ic10.json", scratch / "webapp" / "src" / "ic10.json")
             r = sh(["git", "apply", str(patch)], cwd=str(scratch))
             if r.returncode:
                 print(d.name, "patch does not apply:", r.stderr.strip()[:200])
